@@ -3,6 +3,8 @@
    [prefix_list 64 l] is the list of prefixes Prefix.current returns for the address list l;
    [prefix_Apply true _ 64 ...] are the options Prefix.Apply appends for the parser's ::/64 stanza. *)
 From CR Require Import Model.Wildcard.
+(* Prepare binds Addrs to a function that asks rtnetlink at every call; NewAddresser is the rtnetlink addresser (extracted): fresh_sources in Properties/Fresh.v *)
+From CR Require Properties.Fresh.
 From CR Require Import Proofs.WildcardSort.
 From CR Require Import Proofs.Wildcard.
 From CR Require Corr.C13.
